@@ -516,6 +516,129 @@ def run_text(case: dict, stats: dict) -> tuple[list[str], list[str], str | None,
     return reqs, obs, bad, len(outs) < len([c for c in rechunked if c]) or multi_bom
 
 
+def run_rt_err(case: dict, stats: dict) -> str | None:
+    """round trip in which some sends fail with an encoding error: the failed item is not sent,
+    and the items sent before and after it still arrive unchanged (oracle only)"""
+    enc = case["enc"]
+    snd = CollectSend()
+    ts = TextSendStream(snd, encoding=enc)
+    sent_ok: list[str] = []
+    failed = 0
+    for it in case["items"]:
+        before = len(snd.items)
+        try:
+            drive(ts.send(it))
+            sent_ok.append(it)
+        except UnicodeEncodeError:
+            failed += 1
+            if len(snd.items) != before:
+                return f"text-roundtrip: {enc} a failed send({it!r}) still wrote to the transport"
+    flat = b"".join(snd.items)
+    rechunked = cut(flat, tuple(c for c in case.get("cuts", []) if 0 < c < len(flat)))
+    outs, end = recv_all(enc, rechunked)
+    k = f"rterr:{enc}:{failed}"
+    ops = stats.setdefault("text_ops", {})
+    ops[k] = ops.get(k, 0) + 1
+    if end != "eos" or "".join(outs) != "".join(sent_ok):
+        return (f"text-roundtrip: {enc} items {case['items']!r} ({failed} failed to encode): sent "
+                f"{sent_ok!r}, received {outs!r} ending with {end}")
+    return None
+
+
+class GatedObjStream(ObjectReceiveStream[bytes]):
+    """object stream whose receive() suspends until the harness releases the next chunk"""
+
+    def __init__(self) -> None:
+        self.pending: list[Any] = []
+
+    async def receive(self) -> bytes:
+        import asyncio
+
+        fut = asyncio.get_running_loop().create_future()
+        self.pending.append(fut)
+        return await fut
+
+    async def aclose(self) -> None:
+        pass
+
+
+def run_cfeed(case: dict, stats: dict) -> str | None:
+    """feed_data() while a receive call is suspended on the wrapped stream: nothing may be lost
+    (oracle only; the pure model treats calls as atomic)"""
+    import asyncio
+
+    chunk, fed, call = unhx(case["chunk"]), unhx(case["fed"]), case["call"]
+
+    async def main() -> str | None:
+        src = GatedObjStream()
+        bs = BufferedByteReceiveStream(src)
+        if call[0] == "receive":
+            coro = bs.receive(call[1])
+        elif call[0] == "exactly":
+            coro = bs.receive_exactly(call[1])
+        else:
+            coro = bs.receive_until(unhx(call[1]), call[2])
+        task = asyncio.ensure_future(coro)
+        await asyncio.sleep(0)
+        if not src.pending:
+            task.cancel()
+            return None
+        bs.feed_data(fed)
+        src.pending.pop(0).set_result(chunk)
+        got = b""
+        try:
+            got = await asyncio.wait_for(asyncio.shield(task), 0.5)
+        except (asyncio.TimeoutError, Exception):
+            task.cancel()
+        rest = bytes(bs.buffer)
+        have = sorted(got + rest)
+        if call[0] == "until" and got is not None:
+            have = sorted(got + rest + (unhx(call[1]) if task.done() and not task.cancelled()
+                                        and task.exception() is None else b""))
+        want = sorted(chunk + fed)
+        if task.done() and not task.cancelled() and have != want:
+            return (f"conservation: feed_data({fed!r}) during a suspended {call}: chunk {chunk!r} -> "
+                    f"returned {got!r}, buffer {rest!r}: bytes lost or duplicated")
+        return None
+
+    ops = stats.setdefault("ops", {})
+    ops["cfeed:" + call[0]] = ops.get("cfeed:" + call[0], 0) + 1
+    loop = asyncio.new_event_loop()
+    try:
+        return loop.run_until_complete(main())
+    finally:
+        loop.close()
+
+
+def gen_extra(rng: random.Random, count: int):
+    for _ in range(count):
+        if rng.random() < 0.5:
+            enc = rng.choice(MODEL_ENCODINGS + ORACLE_ONLY_ENCODINGS)
+            items = [rand_text(rng, enc, 0, 3) for _ in range(rng.randint(2, 5))]
+            bad = "\u0100" if enc == "latin-1" else "\ud800"
+            for _k in range(rng.randint(1, 2)):
+                j = rng.randrange(len(items))
+                items[j] = items[j] + bad if rng.random() < 0.5 else bad
+            if enc == "utf-8-sig" and bad in items[0]:
+                # CPython's utf-8-sig incremental encoder forgets to write its BOM if the very first
+                # encode() raises (it clears `first` before encoding): a codec quirk, not AnyIO's
+                items.insert(0, "a")
+            total = sum(len(s.encode(enc, "ignore")) for s in items) + 4
+            cuts = sorted(rng.sample(range(1, total), rng.randint(0, min(4, total - 1))))
+            yield {"t": "rterr", "enc": enc, "items": items, "cuts": cuts}
+        else:
+            chunk = rand_bytes(rng, 1, 8)
+            fed = rand_bytes(rng, 1, 4)
+            r = rng.random()
+            if r < 0.5:
+                call: list = ["receive", rng.randint(1, 6)]
+            elif r < 0.75:
+                call = ["exactly", rng.randint(1, 6)]
+            else:
+                call = ["until", hx(rng.choice([b"|", b"a", b"ab"])), rng.randint(1, 12)]
+            yield {"t": "cfeed", "chunk": hx(chunk), "fed": hx(fed), "call": call}
+
+
 def gen_text(rng: random.Random, count: int, exhaustive_splits: bool):
     encs = MODEL_ENCODINGS + ORACLE_ONLY_ENCODINGS
     for i in range(count):
@@ -558,7 +681,17 @@ def gen_text(rng: random.Random, count: int, exhaustive_splits: bool):
 
 def run_cases(cases: list[dict], res: Result) -> None:
     buf_cases = [c for c in cases if c["t"] == "buf"]
-    txt_cases = [c for c in cases if c["t"] != "buf"]
+    txt_cases = [c for c in cases if c["t"] in ("recv", "rt")]
+    for case in cases:
+        if case["t"] in ("rterr", "cfeed"):
+            res.evaluations += 1
+            try:
+                bad = run_rt_err(case, res.stats) if case["t"] == "rterr" else run_cfeed(case, res.stats)
+            except Exception as e:  # noqa: BLE001
+                bad = f"crash: {type(e).__name__}: {e}"
+            if bad:
+                res.violations.append(Violation(case, bad, "C16:" + bad.split(":")[0]))
+            res.nontrivial.add(hash(json.dumps(case, sort_keys=True)))
     # buffered
     impl = []
     for case in buf_cases:
@@ -642,6 +775,7 @@ def run(ctx: Ctx) -> Result:
             gen_single_call_sweep(rng, 3, min(1.0, 0.3 * b)),
             gen_random_long(rng, ctx.n(3000, 0)),
             gen_text(rng, ctx.n(1500, 0), False),
+            gen_extra(rng, ctx.n(600, 0)),
         ]
     else:
         streams += [
@@ -650,6 +784,7 @@ def run(ctx: Ctx) -> Result:
             gen_single_call_sweep(rng, 4, min(1.0, 1.0 * b)),
             gen_random_long(rng, ctx.n(0, 60000)),
             gen_text(rng, ctx.n(0, 25000), True),
+            gen_extra(rng, ctx.n(0, 6000)),
         ]
         res.exhaustive = b >= 1.0
         res.stats["enumerated_small_scope"] = "all strings<=6 x chunkings x kinds"
